@@ -460,6 +460,32 @@ def _finish_picture(cur, mu, stats, how):
 # --------------------------------------------------------------------------
 # run_case
 # --------------------------------------------------------------------------
+_PRESET_GROUPS = (("frame_rate", "custom_frame_rate_flag"), ("pixel_aspect_ratio", "custom_pixel_aspect_ratio_flag"),
+                  ("signal_range", "custom_signal_range_flag"), ("color_spec", "custom_color_spec_flag"))
+
+
+def _malformed_predecessor(data, ctx):
+    """Before the conformant stream of this case: the same process reads a MALFORMED relative of it (one preset index
+    out of range) with the deserialiser and the validator.  Nothing is judged here - the point is what such an input
+    may leave behind in the process for the conformant streams that follow."""
+    try:
+        dctx, _ = vc2util.deserialise(data)
+        sh = dctx["sequences"][0]["data_units"][0]["sequence_header"]
+        grp, flag = ctx.rng.choice(_PRESET_GROUPS)
+        old = sh["video_parameters"][grp]
+        sh["video_parameters"][grp] = type(old)({flag: True, "index": ctx.rng.randrange(5, 20)})
+        bad = vc2util.reserialise(dctx)
+    except Exception:
+        ctx.count("malformed_predecessor_not_built")
+        return
+    try:
+        vc2util.deserialise(bad)
+    except Exception:
+        pass
+    vc2util.validate(bad, keep_pictures=False)
+    ctx.count("malformed_predecessors_read")
+
+
 def run_case(case, ctx):
     key = jsonx.key_hash(case)
     try:
@@ -478,6 +504,8 @@ def run_case(case, ctx):
         return
     ctx.seen(key)
     data = v.data
+    if ctx.rng.random() < 0.06:
+        _malformed_predecessor(data, ctx)
     MON.reset()
     calls0 = {k: r.calls for k, r in MON.rebinds.items()}
     verdict = vc2util.validate(data, keep_pictures=False)
